@@ -342,6 +342,9 @@ class C06(TravBase):
             return None
         if w not in TRAV or not out.startswith(("ok ", "gen ")):
             return None
+        if out.endswith(("lockstep-differs", "lockstep-does-not-terminate")):
+            return "%s: two generators of this traversal consumed in lock-step do not both list the vertices once and stop (%s)" % (
+                line, out[-40:])
         kind, uni, start, d, k, via, res, mode = self.parse_trav(real, line)
         if mode == "gen" and not out.endswith(" end"):
             return None
